@@ -59,6 +59,7 @@ type Writer struct {
 func BorrowWriter(w io.Writer) *Writer {
 	streamWriter := NewStreamWriter(w)
 	writer := writerPool.Get().(*Writer)
+	verifPool("writer", "get", writer, writer.sw == nil)
 	writer.sw = streamWriter
 	return writer
 }
@@ -68,6 +69,7 @@ func ReturnWriter(w *Writer) {
 	sw := w.sw
 	w.sw = nil
 	returnStreamWriter(sw)
+	verifPool("writer", "put", w, w.sw == nil)
 	writerPool.Put(w)
 }
 
